@@ -387,7 +387,11 @@ var IntFunc = function.New(&function.Spec{
 	RefineResult: refineNonNull,
 	Impl: func(args []cty.Value, retType cty.Type) (cty.Value, error) {
 		bf := args[0].AsBigFloat()
-		if bf.IsInt() || bf.IsInf() {
+		if bf.IsInf() {
+			// as documented for Int
+			return cty.NilVal, fmt.Errorf("can't truncate infinity to an integer")
+		}
+		if bf.IsInt() {
 			return args[0], nil
 		}
 		bi, _ := bf.Int(nil)
